@@ -17,6 +17,7 @@ class Run:
         self.I = I
         self.result = result
         self.returns = list(I.entry_returns)
+        self.return_nodes = list(getattr(I, 'entry_return_nodes', []))
 
     def tag(self):
         flags = ','.join('%s=%s' % (k, v[1] if isinstance(v, tuple) else v)
